@@ -195,6 +195,96 @@ def gen_case(rng, i, version, kind, strict, full_dim, tier):
                                                               "feat": (version, kind, strict)})
 
 
+def gen_multi_case(rng, i, version, tier):
+    """groups of 2-4 valid, element-disjoint requests on one 2-3 dimensional variable (fixed or record, unequal dimension
+    lengths) completed by ONE wait, or one varn call with several sub-requests: the aggregated write must stay inside
+    the union of the addressed elements"""
+    isrec = rng.random() < 0.65
+    nfix = rng.choice([2, 2, 1]) if isrec else rng.choice([2, 3])
+    lens = rng.sample([2, 3, 4, 5, 6, 7], nfix)          # pairwise different lengths
+    numrecs0 = rng.choice([0, 1, 3]) if isrec else 0
+    sc = Script()
+    path = "s:@OUT@/c15.nc"
+    sc.add("*", "create", f=0, path=path, cmode=FMT_CMODE[version], info="romio_ds_write:disable")
+    sc.add("*", "def_dim", f=0, name="s:t", len=0)
+    for k in range(nfix):
+        sc.add("*", "def_dim", f=0, name="s:d%d" % k, len=lens[k])
+    dimids = ([0] if isrec else []) + list(range(1, nfix + 1))
+    shape = [0 if d == 0 else lens[d - 1] for d in dimids]
+    nd = len(shape)
+    xt = rng.choice([1, 3, 4, 5, 6])
+    mtname = {1: "schar", 3: "short", 4: "int", 5: "float", 6: "double"}[xt]
+    xsz = cs.XSZ[xt]
+    sc.add("*", "def_var", f=0, name="s:before", xtype=4, dimids="1", ndims=1)
+    sc.add("*", "def_var", f=0, name="s:brec", xtype=3, dimids="0", ndims=1)
+    sc.add("*", "def_var", f=0, name="s:target", xtype=xt, dimids=",".join(map(str, dimids)), ndims=nd)
+    sc.add("*", "def_var", f=0, name="s:after", xtype=4, dimids="1", ndims=1)
+    sc.add("*", "def_var", f=0, name="s:arec", xtype=6, dimids="0,1", ndims=2)
+    sc.add("*", "enddef", f=0)
+    sc.add("*", "put", f=0, v=0, form="var", mt="int", coll=1, data="hex:" + "11" * 4 * lens[0])
+    sc.add("*", "put", f=0, v=3, form="var", mt="int", coll=1, data="hex:" + "22" * 4 * lens[0])
+    if numrecs0:
+        sc.add("*", "put", f=0, v=1, form="vara", mt="short", coll=1, start="0", count=str(numrecs0), data="hex:" + "33" * 2 * numrecs0)
+        sc.add("*", "put", f=0, v=4, form="vara", mt="double", coll=1, start="0,0", count="%d,%d" % (numrecs0, lens[0]), data="hex:" + "44" * 8 * numrecs0 * lens[0])
+    sc.add("*", "sync", f=0)
+    sc.add("*", "snapshot", path=path, tag="init")
+    sc.add("*", "fsnap", path=path, slot=0)
+    sc.add("*", "begin_indep", f=0)
+    reqs = []
+    bnum = 0
+    for g in range(60 if tier == "quick" else 400):
+        eff = [(numrecs0 + 2 if (isrec and d == 0) else shape[d]) for d in range(nd)]
+        taken = set()
+        boxes = []
+        for _ in range(rng.randint(2, 4)):
+            st, ct, sd = [], [], []
+            for d in range(nd):
+                L = eff[d]
+                s0 = rng.randint(0, L - 1)
+                step = rng.choice([1, 1, 2]) if L - s0 > 1 else 1
+                c = rng.randint(1, (L - 1 - s0) // step + 1)
+                if rng.random() < 0.4:
+                    c = 1                           # rows / columns / single planes interleave best
+                st.append(s0); ct.append(c); sd.append(step)
+            els = set(elements(eff, st, ct, sd))
+            if els & taken:
+                continue
+            taken |= els
+            boxes.append((st, ct, sd))
+        if len(boxes) < 2:
+            continue
+        allels = sorted(taken)
+        strided = any(x != 1 for b in boxes for x in b[2])
+        how = rng.choice(["iput", "iput", "varn", "ivarn"]) if not strided else "iput"
+        if how == "iput":
+            for (st, ct, sd) in boxes:
+                bnum = (bnum + 1) % 1000
+                nel = int(np.prod(ct))
+                kw = dict(f=0, v=2, mt=mtname, form="vars" if any(x != 1 for x in sd) else rng.choice(["vara", "vars"]), start=",".join(map(str, st)), count=",".join(map(str, ct)),
+                          data="hex:" + "a7" * (nel * xsz), buf=bnum + 1, req=bnum + 1)
+                if kw["form"] == "vars":
+                    kw["stride"] = ",".join(map(str, sd))
+                sc.add("*", "iput", **kw)
+            line = sc.add("*", "wait", f=0, coll=0, reqs="all")
+        else:
+            nel = sum(int(np.prod(b[1])) for b in boxes)
+            kw = dict(f=0, v=2, mt=mtname, form="varn", num=len(boxes), starts=";".join(",".join(map(str, b[0])) for b in boxes),
+                      counts=";".join(",".join(map(str, b[1])) for b in boxes), data="hex:" + "a7" * (nel * xsz))
+            if how == "varn":
+                line = sc.add("*", "put", coll=0, **kw)
+            else:
+                bnum = (bnum + 1) % 1000
+                sc.add("*", "iput", buf=bnum + 1, req=bnum + 1, **kw)
+                line = sc.add("*", "wait", f=0, coll=0, reqs="all")
+        dline = sc.add("*", "fdiff", path=path, slot=0)
+        reqs.append({"line": line, "wait": None, "diff": dline, "want": ["OK"], "isput": True, "els": allels, "form": "multi-" + how,
+                     "start": [b[0] for b in boxes], "count": [b[1] for b in boxes], "stride": [b[2] for b in boxes]})
+    sc.add("*", "end_indep", f=0)
+    sc.add("*", "close", f=0)
+    return Case("c15_m_%05d" % i, 1, sc.lines, env={}, meta={"reqs": reqs, "shape": shape, "isrec": isrec, "xsz": xsz, "version": version, "strict": False,
+                                                            "kind": "multi-%s%dd" % ("rec" if isrec else "fix", nd), "feat": (version, "multi", isrec, nd)})
+
+
 class C15(Check):
     id = "C15"
     exhaustive = False
@@ -204,7 +294,9 @@ class C15(Check):
             "reference predicate allows (documented precedence coords > {edge, negative count} > stride; set-valued where undocumented); "
             "an in-process byte diff of the WHOLE file around every request: rejected, zero-length and read requests change no byte, an "
             "accepted put changes only bytes of the addressed elements of the target variable (offsets from the independently decoded "
-            "header) and the numrecs field.  distinct = distinct (form, put/get, outcome, kind, version, strict) tuples")
+            "header) and the numrecs field.  Plus groups of 2-4 valid, element-disjoint (interleaved, strided) nonblocking requests "
+            "or varn sub-requests on 2-3 dimensional variables with pairwise different dimension lengths, completed by one wait: "
+            "the aggregated write changes only the union of the addressed elements.  distinct = distinct (form, put/get, outcome, kind, version, strict) tuples")
     assumptions = ["requests are issued in independent mode on one process (error precedence in collective mode is C08's subject)"]
 
     def generate(self, tier, rng):
@@ -213,6 +305,8 @@ class C15(Check):
         kinds = ["fix1d", "rec1d", "fix2d", "rec2d"]
         for i in range(n):
             yield gen_case(rng, i, [1, 2, 5][i % 3], kinds[(i // 3) % 4], strict=((i // 12) % 2 == 1), full_dim=0, tier=tier)
+        for i in range(60 if tier == "quick" else 600):
+            yield gen_multi_case(rng, i, [1, 2, 5][i % 3], tier)
 
     def features(self, res):
         return res.case.name
